@@ -11,8 +11,8 @@ package mqtt
 //@   pure
 //@   requires m != nil
 //@   ensures[C20] result != nil && fresh(result)
-//@   ensures[C20] result.Topic == m.Topic && result.QoS == m.QoS && result.Retain == m.Retain && result.Dup == m.Dup && result.ID == m.ID
-//@   ensures[C20] seqEq(seqOf(result.Payload), seqOf(m.Payload))
+//@   ensures[C04,C05,C20] same_fields: result.Topic == m.Topic && result.QoS == m.QoS && result.Retain == m.Retain && result.Dup == m.Dup && result.ID == m.ID
+//@   ensures[C04,C05,C20] same_payload: seqEq(seqOf(result.Payload), seqOf(m.Payload))
 //@   ensures[C20] len(m.Payload) > 0 ==> fresh(result.Payload)
 //@   ensures[C20] !sameArray(result.Payload, m.Payload) || len(m.Payload) == 0
 
